@@ -11,7 +11,8 @@ for d in /verif/seeded/*/; do
   [ -f $d/patch.diff ] || continue
   if [ $# -gt 0 ]; then ok=0; for p in "$@"; do case $n in $p*) ok=1;; esac; done; [ $ok = 1 ] || continue; fi
   prop=${n%%-*}
-  res=$(./seedtest.sh $d $prop 2>&1)
+  bc=$(python3 -c "import json,sys; print(json.load(open(sys.argv[1])).get(\"base\",\"HEAD\"))" $d/meta.json 2>/dev/null || echo HEAD)
+  res=$(BASE=$bc ./seedtest.sh $d $prop 2>&1)
   base=$(echo "$res" | sed -n 's/^demo on clean tree: exit //p')
   mut=$(echo "$res" | sed -n 's/^demo with change: exit //p')
   chk=$(echo "$res" | sed -n "s/^check $prop: exit \([0-9]*\) .*/\1/p")
